@@ -7,8 +7,6 @@
    The protobuf encoding of a Publication is abstracted: [marshal data delta] is
    a one-byte envelope (it only has to be injective and never to start with
    "__", as a protobuf message cannot); Time / Info / Tags are not observed.
-   Three small fixes proposed by C18 are part of this model (see /verif/fixes/C18-*.patch and the
-   comments "fix C18-..." below); on a tree without them the corresponding probe cases fail.
    Parametrised by the implementation of the five scripts ([scripts]), so that it
    runs over the shallow scripts (theorems) or the interpreted ones (tie). *)
 From Coq Require Import List NArith ZArith Bool String Ascii.
@@ -164,11 +162,6 @@ Definition handle_message (chid msg : string) : option delivery :=
       | Some (data, pdelta) =>
           let delta := (delta || pdelta)%bool in
           if (delta && negb (String.eqb prevp ""))%bool then
-            (* fix C18-list-delta: with list storage the previous element still carries its
-               "__p1:offset:epoch__" prefix; only the payload part is unmarshalled *)
-            let prevp := if is_prefix "__" prevp
-                         then match extract_push_data prevp with PushPub pd _ _ _ _ => pd | _ => prevp end
-                         else prevp in
             match unmarshal prevp with
             | None => None                               (* prevPub.UnmarshalVT error: message dropped *)
             | Some (pdata, _) => Some (mkDel ch data off epoch true (Some pdata))
@@ -215,8 +208,7 @@ Definition parse_publish_reply (r : reply) : result :=
   | inr l =>
       let n := List.length l in
       if negb (Nat.eqb n 2 || Nat.eqb n 3 || Nat.eqb n 4)%bool then ResErr else
-      (* fix C18-idem-cross-mode: a nil offset (result cached by a publication without history) is 0 *)
-      match (match as_int64 (nth 0 l RNil) with inl PNil => inr 0%Z | x => x end), to_string (nth 1 l RNil) with
+      match as_int64 (nth 0 l RNil), to_string (nth 1 l RNil) with
       | inr off, inr ep =>
           let offn := wrap64 off in
           match (if Nat.leb 3 n then to_string (nth 2 l RNil) else inr "") with
@@ -264,14 +256,9 @@ Definition rb_publish (st : rstate) (ch data : string) (o : popts) (nonce : stri
     else
       let '(st', r) := s_publish_idempotent SC [result_key ch (po_idem o)]
                          [marshal data (po_delta o); message_channel ch; "publish"; result_expire o] st in
-      (st', match r with
-            | RErr _ | RNil => ResErr      (* resp.Error(): a nil reply also counts as an error in rueidis *)
-            | RArr [ro; re] =>
-                (* fix C18-nohist-idempotent: the cached {offset, epoch} reply means "already published" *)
-                ResPublish (match as_int64 ro with inr z => wrap64 z | inl _ => 0%N end)
-                           (match to_string re with inr e => e | inl _ => "" end) true 1
-            | _ => ResPublish 0 "" false 0
-            end)
+      (st', match r with RErr _ | RNil => ResErr | _ => ResPublish 0 "" false 0 end)
+        (* resp.Error(): a nil reply (RNil) also counts as an error in rueidis; the cached
+           {offset, epoch} reply of the idempotent script is not looked at (finding nohist-idem) *)
   else
     let '(st', r) := (if c_lists cfg then s_add_list SC else s_add_stream SC)
                        (publish_keys cfg ch o) (publish_args cfg ch data o nonce) st in
